@@ -161,6 +161,36 @@ CHECKS = [
               "internal_to_dirichlet (vectorial), on Cartesian, simplex and split fractured grids: exactly one flag on boundary faces per component, none on interior "
               "non-fracture faces, unassigned boundary faces Neumann.",
          note="Quick covers vectorial programs of up to 2 assignments plus constructor-only 3-assignment programs; thorough is exhaustive."),
+    dict(id="C07", level=MC, technique="TLC enumerates admissible primary/secondary splits and simulated sequences of splits on one system (spec/ref/SchurEnum.tla) "
+         "and judges reduced-solve + expand against the full solve on manufactured integer systems (J_Schur); block labels vs spec/ref/SchurRef.tla as DRIFT",
+         text="Every single admissible split of 3 equations (by name, or restricted to all/first/last/ends/none of their grids, counterpart variables primary) and "
+              "sequences of up to 3 splits assembled one after the other on the same EquationSystem (the default inverter keeps a permutation between calls) are "
+              "run on seeded strictly diagonally dominant sparse integer systems with a manufactured integer increment: assemble_schur_complement_system -> "
+              "spsolve -> expand_schur_complement_solution must reproduce the full solve, with the default block inverter and with a custom inverter.",
+         note="Linear solves are black boxes (results within 1e-8 of integers are rounded, anything else fails). The block composition (row/column labels of the "
+              "primary and secondary blocks, read back on a labelled copy with a zero inverter) is compared with the reference but only reported as DRIFT."),
+    dict(id="C40", level=TV, technique="TLC enumerates tensor parameters, rational rotations, restrictions and copies (spec/ref/TensorEnum.tla, TensorHeap.tla) and "
+         "judges SecondOrderTensor / FourthOrderTensor against spec/ref/Tensor.tla (J_Tensor)",
+         text="Symmetry of second- and fourth-order tensors, entries equal to the reference layout, rotate(R) = R K R^T for signed permutations x 3-4-5 / rational "
+              "rotations with trace, second invariant and determinant preserved (the rational form of 'eigenvalues preserved'), restrict_to_cells selects the "
+              "cells and leaves the original intact, copies are equal and independent (in-place writes through every array of either object).",
+         note="Integer parameters, rational rotations: exact comparison. copy()/restrict after rotation only with signed permutations."),
+    dict(id="C41", level=TV, technique="TLC enumerates boxes, resolutions, multilinear coefficient tensors and lattice query points (spec/ref/InterpTableEnum.tla) "
+         "and judges InterpolationTable / AdaptiveInterpolationTable against the exact function (J_InterpTable)",
+         text="Interpolation reproduces multilinear functions exactly at every lattice point of the closed box (nodes, interiors, boundary), gradients are exact for "
+              "linear functions, and the adaptive table (driven in batch, point-by-point and assign_values modes) agrees with the standard table and the exact function.",
+         note="1-3 parameters, resolutions 2-4 per axis, single-output functions."),
+    dict(id="C42", level=EX, technique="TLC enumerates fraction vectors on the simplex, integer densities, gradients (spec/ref/SaturationEnum.tla) with the exact closed "
+         "form and judges compute_saturations, chainrule_fractional_derivatives, normalize_rows (J_Saturation)",
+         text="Saturations non-negative, sum to one, reproduce the fractions as density-weighted ratios and equal the closed form; the chain rule equals the exact rational "
+              "Jacobian of the normalised fractions; row normalisation yields unit row sums; vectorised and scalar call paths.",
+         note="2-5 phases incl. vanishing and saturated ones, fractions k/N with N <= 6; doubles converted to rationals (1e-9)."),
+    dict(id="C43", level=TV, technique="TLC enumerates unit systems, unit strings and material classes (spec/ref/UnitsEnum.tla) and does all scaling arithmetic on exponent "
+         "vectors; the real Units.convert_units / to_units results are judged (J_Units)",
+         text="to-simulation then to-SI is the identity, a composed unit string equals composing the conversions, derived units equal their base-unit expressions, "
+              "material constants converted to any unit system convert back to their SI values.",
+         note="Only the unit-algebra sentences of the property are covered: the last sentence (a scaled flow simulation gives the same SI solution) has no discrete "
+              "reference and is NOT claimed. Time scaling is 1 (the code rejects others); floats only."),
 ]
 
 _NOT_BUILT = "check not built yet (planned, DESIGN.md section 10); not claimed until its commands are green on the unchanged tree"
